@@ -106,6 +106,41 @@ pub enum E {
 }
 
 impl E {
+    /// value, an absolute error bound of the double-precision evaluation (a few ulps per operation, propagated), and
+    /// whether some divisor cannot be told from zero within its own bound (then x/0 = 0 makes the value discontinuous)
+    pub fn eval_bound(&self) -> (f64, f64, bool) {
+        const U: f64 = 4.0 * f64::EPSILON;
+        let tiny = 64.0 * f64::from_bits(1); // subnormal spacing
+        match self {
+            E::Lit(l) => {
+                let v = l.value();
+                (v, v.abs() * U + tiny, false)
+            }
+            E::Sign(neg, e) => {
+                let (v, err, u) = e.eval_bound();
+                (if *neg { -v } else { v }, err, u)
+            }
+            E::Paren(e) => e.eval_bound(),
+            E::Bin(op, _, l, r) => {
+                let (a, ea, ua) = l.eval_bound();
+                let (b, eb, ub) = r.eval_bound();
+                let v = op.apply(a, b);
+                let (err, unstable) = match op {
+                    Op::Add | Op::Sub => (ea + eb, false),
+                    Op::Mul => (a.abs() * eb + b.abs() * ea + ea * eb, false),
+                    Op::Div => {
+                        if b == 0.0 || b.abs() <= eb {
+                            (0.0, b != 0.0 || eb > tiny)
+                        } else {
+                            let denom = (b.abs() - eb).max(f64::MIN_POSITIVE);
+                            (ea / denom + a.abs() * eb / (denom * denom), false)
+                        }
+                    }
+                };
+                (v, err + v.abs() * U + tiny, ua || ub || unstable)
+            }
+        }
+    }
     pub fn eval(&self) -> f64 {
         match self {
             E::Lit(l) => l.value(),
@@ -540,7 +575,11 @@ impl Prop for Arith {
         let mut acc = Acc::new();
         match &slot {
             Slot::Ok { v: V::Num(got, NT::Decimal), .. } => {
-                if !close(*got, exp) {
+                // double precision: within a relative 1e-9, or - where operands cancel - within a generous multiple of
+                // the propagated rounding error (NOT an absolute epsilon: 1e-315 is not 0)
+                let (_, bound, unstable) = c.e.eval_bound();
+                let ok = if unstable || !bound.is_finite() { close(*got, exp) } else { *got == exp || (got.is_finite() && (*got - exp).abs() <= (1e-9 * exp.abs()).max(1e6 * bound)) };
+                if !ok {
                     acc.fail_kf(format!("expected {} got {}", exp, got), classify_known(&toks, &slot, exp));
                 }
             }
@@ -647,6 +686,22 @@ pub fn deep_strategy() -> impl Strategy<Value = Case> {
             };
         }
         Case { e, spaces: vec![if blank { 1 } else { 0 }; 8], seps: 0, assign, tr: false }
+    })
+}
+
+/// quotient (and product) chains over literals with large magnitude suffixes: results from 1e-300 down into the
+/// subnormal range and to an exact 0 - a double-precision value is not 0 because it is small
+pub fn tiny_strategy() -> impl Strategy<Value = Case> {
+    let big = (1u32..=999, prop::sample::select(vec!['T', 'P', 'Z', 'Y'])).prop_map(|(m, sfx)| E::Lit(Lit { mant: m as f64, suffix: Some(sfx), sign: 0, group: false }));
+    (1u32..=999, prop::collection::vec((big, prop::bool::weighted(0.9)), 8..=17), any::<bool>(), prop::option::weighted(0.2, any::<u32>())).prop_map(|(first, rest, blank, assign)| {
+        let mut e = E::Lit(Lit { mant: first as f64, suffix: None, sign: 0, group: false });
+        let mut magnitude = 0i32; // keep products from overflowing: at most two multiplications in a row
+        for (lit, div) in rest {
+            let div = div || magnitude > 40;
+            magnitude += if div { -21 } else { 21 };
+            e = E::Bin(if div { Op::Div } else { Op::Mul }, false, Box::new(e), Box::new(lit));
+        }
+        Case { e, spaces: vec![if blank { 1 } else { 0 }; 80], seps: 0, assign, tr: false }
     })
 }
 
@@ -799,7 +854,7 @@ pub fn regression_table() -> Vec<Case> {
 }
 
 pub fn run(ctx: &Ctx) {
-    ctx.rule("generated: expression trees over decimal literals (integers, fractions, attached signs, k..Y suffixes, thousands groups), + - * /, redundant and required parentheses, detached sign prefixes on literals and groups, juxtaposed operands (literals and parenthesised groups: 2 3, 2 (3) 4, (1 + 2) 3), 0-3 blanks per gap, 4 separator conventions, optionally as the right-hand side of an assignment, under the language tags en and tr; plus trees wrapped 10-160 levels deep in parentheses (redundant, or `(inner op literal)` layers, with group signs); oracle = reference evaluator over the tree (f64, x/0=0), tolerance 1e-9 relative; non-trivial = DISTINGUISHING: the reference value differs from at least one wrong reading of the same tokens (no precedence / right-associative / parentheses ignored); distinct = distinct rendered line + configuration");
+    ctx.rule("generated: expression trees over decimal literals (integers, fractions, attached signs, k..Y suffixes, thousands groups), + - * /, redundant and required parentheses, detached sign prefixes on literals and groups, juxtaposed operands (literals and parenthesised groups: 2 3, 2 (3) 4, (1 + 2) 3), 0-3 blanks per gap, 4 separator conventions, optionally as the right-hand side of an assignment, under the language tags en and tr; plus trees wrapped 10-160 levels deep in parentheses (redundant, or `(inner op literal)` layers, with group signs); plus quotient chains over literals with the suffixes T..Y whose values run from 1e-300 through the subnormal range to an exact 0; oracle = reference evaluator over the tree (f64, x/0=0), tolerance 1e-9 relative or - where operands cancel - 10^6 times the propagated rounding-error bound (never an absolute epsilon); non-trivial = DISTINGUISHING: the reference value differs from at least one wrong reading of the same tokens (no precedence / right-associative / parentheses ignored); distinct = distinct rendered line + configuration");
     ctx.assume("a quotient chain NUM / NUM / NUM whose operands read as a valid day/month/year is a date by design and is excluded (counted under excluded)");
     ctx.assume("juxtaposition is generated where the left side ends in a literal or ')' and the right side starts with an unsigned literal or '('; a sign prefix applies to a literal (possibly carrying its own attached sign) or to a parenthesised group");
     ctx.run_table(&Arith, "regressions", regression_table(), false);
@@ -810,6 +865,7 @@ pub fn run(ctx: &Ctx) {
     };
     ctx.run_generated(&Arith, ctx.tier.pick(200_000, 2_000_000), || case_strategy(d, s));
     ctx.run_generated(&Arith, ctx.tier.pick(4_000, 40_000), deep_strategy);
+    ctx.run_generated(&Arith, ctx.tier.pick(4_000, 40_000), tiny_strategy);
 }
 
 pub fn replay(w: &mut Worker, sub: &str, case: &serde_json::Value) -> Option<Verdict> {
